@@ -1,7 +1,7 @@
 -------------------------------- MODULE Solvers --------------------------------
 (* C06, model level.  TLC enumerates every network CLASS (SolversDef.tla) x calculate_voltage_angles and, per class, *)
 (* the short life of one net object:                                                                              *)
-(*      classify  --Solve(s)-->  solved by s           (s any solver configuration except nr_results)             *)
+(*      fresh  --Classify-->  classified  --Solve(s)-->  solved by s     (s any configuration except nr_results)   *)
 (*      solved by nr  --Solve("nr_results")-->  solved again, started from the stored results                      *)
 (* Every Solve step carries the PLAN the specification derives for that run from the abstract class: the options  *)
 (* as the code resolves them, the call sequence, the outcome set the property allows.  The harness                *)
@@ -9,22 +9,29 @@
 (* the run with the arguments plan.req, records outcome / resolved options / call trace / results, and             *)
 (* SolversObs.tla evaluates the property and the conformance of the plan on those observations.                    *)
 EXTENDS SolversDef
-CONSTANTS Topos, SlackKinds, SlackPos, PVs, XSs, TrafoKinds, Loads,      \* first island: full product
+CONSTANTS Topos, SlackKinds, SlackPos, PVs, XSs, TrafoKinds, Loads,      \* single-island classes: full product
+          PVsA, TrafoKindsA,                                              \* first island of a two-island class
           Topos2, SlackKinds2, SlackPos2, PV2s,                           \* second island: reduced family
           MaxIslands
 VARIABLES net,    \* [c: class, cva: calculate_voltage_angles, res: result tables of a previous run exist]
-          step    \* [kind |-> "classify", feat] | [kind |-> "solve", s, res0 (net.res before the run), plan]
+          step    \* [kind |-> "fresh"] | [kind |-> "classify", feat] | [kind |-> "solve", s, res0 (= net.res before), plan]
 vars == <<net, step>>
 
 Island1 == {d \in [topo : Topos, slack : SlackKinds, spos : SlackPos, pv : PVs, xs : XSs, trafo : TrafoKinds, load : Loads] :
               ~(d.xs /\ d.pv)}                       \* the extra ext_grid and the PV gen would share template bus 2
-Island2(d) == [topo : Topos2, slack : SlackKinds2, spos : SlackPos2, pv : PV2s, xs : {FALSE}, trafo : {"none"}, load : {d.load}]
+IslandA == [topo : Topos, slack : SlackKinds, spos : SlackPos, pv : PVsA, xs : {FALSE}, trafo : TrafoKindsA, load : Loads]
+IslandB(d) == [topo : Topos2, slack : SlackKinds2, spos : SlackPos2, pv : PV2s, xs : {FALSE}, trafo : {"none"}, load : {d.load}]
 Classes == {<<d>> : d \in Island1}
-           \cup (IF MaxIslands >= 2 THEN UNION {{<<d, e>> : e \in Island2(d)} : d \in {d \in Island1 : ~d.xs}} ELSE {})
+           \cup (IF MaxIslands >= 2 THEN UNION {{<<d, e>> : e \in IslandB(d)} : d \in IslandA} ELSE {})
 
 Init == \E c \in Classes, a \in BOOLEAN :
           /\ net = [c |-> c, cva |-> a, res |-> FALSE]
-          /\ step = [kind |-> "classify", feat |-> Feat(c, a)]
+          /\ step = [kind |-> "fresh"]
+
+\* the graph-theoretic classification of the class and what the index model of the sweep predicts for it
+Classify == /\ step.kind = "fresh"
+            /\ step' = [kind |-> "classify", feat |-> Feat(net.c, net.cva)]
+            /\ UNCHANGED net
 
 \* runpp(net, **plan.req): one power flow on the net object in its current state
 Solve(s) ==
@@ -33,17 +40,17 @@ Solve(s) ==
   /\ s = "nr_results" => net.res
   /\ step' = [kind |-> "solve", s |-> s, res0 |-> net.res, plan |-> Plan(net.c, net.cva, s, net.res)]
   /\ net' = [net EXCEPT !.res = @ \/ s = RefSolver]     \* the harness goes on only after a converged reference run
-Next == \E s \in Solvers : Solve(s)
+Next == Classify \/ \E s \in Solvers : Solve(s)
 Spec == Init /\ [][Next]_vars
 
 -----------------------------------------------------------------------------
 (* model-level invariants: the class construction and the derived plans are sane *)
 M_TypeOK == /\ net.c \in Classes /\ net.cva \in BOOLEAN /\ net.res \in BOOLEAN
-            /\ step.kind \in {"classify", "solve"}
+            /\ step.kind \in {"fresh", "classify", "solve"}
             /\ step.kind = "solve" => step.s \in Solvers /\ step.plan.allowed \subseteq Outcomes
 \* the graph operators agree with the constructive description: islands = blocks, loops as declared, one reference bus
 \* per slack element, the three bus types partition the buses
-M_ClassSound == LET c == net.c IN
+M_ClassSound == step.kind = "classify" => LET c == net.c IN
   /\ Islands(c) = {Block(k) : k \in DOMAIN c}
   /\ Topo!IsPartition(Islands(c), Buses(c))
   /\ \A k \in DOMAIN c : Cyclomatic(c, Block(k)) = DeclaredLoops(c[k])
@@ -58,8 +65,8 @@ M_PlanSane == step.kind = "solve" =>
   /\ (step.plan.r.init_vm = "results" <=> step.s = "nr_results")        \* results are used exactly in the 2nd run
   /\ (step.plan.r.ls2g = "on" => step.plan.r.alg = "nr" /\ Cardinality(SlackElems(net.c)) = 1)
   /\ (step.plan.calls = <<>> <=> step.plan.r.ls2g = "unsupported")
-\* both Newton back-ends are reachable for the reference on some class, so that "nr" vs "nr_pp"/"nr_ls2g" is not void
-M_StepShape == step.kind = "classify" => ~net.res
+\* result tables exist only after a run
+M_StepShape == step.kind \in {"fresh", "classify"} => ~net.res
 
 (* DESIGN requirement on the sweep (NOT part of Solvers.cfg: it is expected to fail on the pinned rules; the         *)
 (* counterexample is replayed on the real code by the harness and only the reproduced failure is reported).         *)
